@@ -41,7 +41,8 @@ def gen(rng, tier, i):
         r = rng.random()
         if r < 0.5: b['time_sel'] = [rng.randrange(64), rng.randrange(8), rng.randrange(8), rng.choice([0, 0, 0.25, -0.25, 1, -1])]
         elif r < 0.65: b['time'] = rng.choice([0, 2.5, 10, 1000, float(wsim.TMIN), float(wsim.TMAX)])
-    case = {'script': script, 'sims': sims, 'delays': wavegen.gen_delays(rng, skew=rng.choice(['wild', 'wild', 'wild', 'wild', 'mild'])), 'caps': caps, 'batches': batches,
+        if r < 0.65: b['time_type'] = rng.choice(['f32', 'f32', 'f64', 'py'])      # the same float32 value handed over as NumPy float32 / float64 or Python float
+    case = {'script': script, 'sims': sims, 'delays': wavegen.gen_delays(rng, skew=rng.choice(['wild', 'wild', 'wild', 'wild', 'mild'])), 'caps': caps, 'argforms': wavegen.gen_argforms(rng), 'batches': batches,
             'actrl': wavegen.gen_actrl(rng, p=0.8), 'knobs': {'c_reuse': rng.random() < 0.4, 'strip_forks': rng.random() < 0.4}, 'keep_caps': True}
     cfgs = [{'cls': 'cpu'}]
     cfgs.append({'cls': 'gpu', 'sched': wavegen.gen_order_sched(rng), 'block': wavegen.gen_block(rng)})
